@@ -43,6 +43,7 @@ func c12build() *c12world {
 	add("R6", `(a+)+$`)      // catastrophic; used with a timeout
 	w.re["R6"].MatchTimeout = 5 * time.Millisecond
 	add("R7", `(a)(b)`, regexp2.OptionMaxCachedReplacerDataEntries(1)) // replacement cache of 1
+	add("R8", `(a)|b`, regexp2.RightToLeft)                            // right-to-left drivers (own buffer handling)
 	return w
 }
 
@@ -139,6 +140,11 @@ func c12calls() []c12call {
 	repl("R7", "ab", "<$1>", `"ab"`)
 	repl("R7", "ab", "[$2$1]", `"ab"`)
 	repl("R7", "xab", "${1}-$&", `"xab"`)
+	// R8 right-to-left
+	repl("R8", "abab", "<$1>", `"abab"`)
+	find("R8", "zab", `"zab"`)
+	all("R8", "abba", `"abba"`)
+	split("R8", "cabc", `"cabc"`)
 	// R6 timed catastrophic match (virtual time: each timeout check costs this thread 1 ms)
 	add("R6.MatchString(timeout)", func(w *c12world) string {
 		t := vsched.Cur()
@@ -201,6 +207,11 @@ func c12run(calls []c12call, hist []int, contents bool) (results []string, key s
 	s.Run()
 	if s.Aborted || s.Deadlock {
 		harness = fmt.Sprintf("execution did not finish (aborted=%v deadlock=%v)", s.Aborted, s.Deadlock)
+	}
+	if s.Fault != "" && len(results) > 0 {
+		// a broken invariant of a shimmed primitive (e.g. one buffer put into a pool twice) is hidden state that
+		// leaks into later calls: make the history fail at its last call
+		results[len(results)-1] += " [" + s.Fault + "]"
 	}
 	return
 }
@@ -317,6 +328,7 @@ func runC12(c *Ctx) {
 		uni{"R1+R5 (global pools)", pick("R1.MatchString", "R1.FindAll", "R1.Replace(1025", "R5.", "event:"), small},
 		uni{"R1 replacements (cache of 2, six replacement strings)", pick("R1.Replace(\"", "R1.MatchString(\"xab\")"), small},
 		uni{"R7 replacements (cache of 1)", pick("R7.", "event:gc"), small},
+		uni{"R8 right-to-left + R1 (global pools)", pick("R8.", "R1.MatchString(\"xab\")", "R1.Find+Groups", "event:"), small},
 		uni{"R2 balancing", pick("R2.", "event:"), small},
 		uni{"R3 stack-limited", pick("R3.", "event:"), small},
 		uni{"R4 sparse", pick("R4.", "event:"), small},
